@@ -308,10 +308,10 @@ func VerifC31bStartup() {
 	b := vcBounds{rounds: 1, maxOps: 1, ops: []int{voOpWrite, voOpSnapKeep1}, tampers: vcTampersQuick,
 		peers: []int{voPeersNone, voPeersSelf, voPeersGarbage}, closeOpt: []int{0, 1}}
 	if verifTier() == 1 {
-		b.maxOps = 3
-		b.ops = []int{voOpWrite, voOpSnapKeep1, voOpSnapKeepAll, voOpNoop, voOpRewrite}
+		b.maxOps = 2
+		b.ops = []int{voOpWrite, voOpSnapKeep1, voOpSnapKeepAll, voOpNoop}
 		b.tampers = vcTampersAll
-		b.peers = []int{voPeersNone, voPeersSelf, voPeersSelfPlus, voPeersThree, voPeersNoVoter, voPeersGarbage}
+		b.peers = []int{voPeersNone, voPeersSelf, voPeersThree, voPeersNoVoter, voPeersGarbage}
 	}
 	w := voNewWorld()
 	defer w.cleanup()
@@ -341,12 +341,11 @@ func VerifC31bDuring() {
 		peers: []int{voPeersNone}, closeOpt: []int{0},
 		crc: []time.Duration{0, 5 * time.Millisecond, 300 * time.Millisecond, 12 * time.Second}}
 	if verifTier() == 1 {
-		b.maxOps = 2
 		b.ops = []int{voOpWrite, voOpSnapKeep1}
 		b.tampers = vcTampersQuick
 		b.closeOpt = []int{0, 1}
 		b.crc = []time.Duration{0, 1, 5 * time.Millisecond, 10 * time.Millisecond, 300 * time.Millisecond, 5 * time.Second, 8900 * time.Millisecond,
-			9500 * time.Millisecond, 10*time.Second - 1, 10 * time.Second, 10*time.Second + 5*time.Millisecond, 12 * time.Second, 30 * time.Second}
+			9500 * time.Millisecond, 10 * time.Second, 12 * time.Second}
 	}
 	w := voNewWorld()
 	defer w.cleanup()
